@@ -78,8 +78,13 @@ def run(ctx):
     ctx.flush()
     for i in range(n_random):
         n = gen.log_int(rng, 2, 300 if ctx.tier == 'quick' else 2000)
-        kind = rng.choice(['plateau', 'int', 'dyadic', 'offset-plateau'])
-        if kind == 'plateau':
+        kind = rng.choice(['plateau', 'int', 'dyadic', 'offset-plateau', 'tiny-scale', 'near-tie'])
+        if kind == 'tiny-scale':
+            # exact power-of-two scaling keeps the record dyadic-safe: steps far below any absolute tolerance must still count
+            v = gen.dyadic_record(rng, n) * 2.0 ** -rng.choice([30, 40, 60])
+        elif kind == 'near-tie':
+            v = gen.int_record(rng, n) + np.array([rng.choice([0, 1, -1, 2]) * 2.0 ** -rng.choice([28, 34, 40]) for _ in range(n)])
+        elif kind == 'plateau':
             v = gen.plateau_record(rng, n)
         elif kind == 'offset-plateau':
             v = gen.plateau_record(rng, n, levels=(3, 4, 5, 7), p_repeat=0.6)
@@ -136,10 +141,14 @@ def power_law(ctx):
             n0 = im.calc_n_cyc_array_w_power_law(v, a_ref, b, cut_off=0.0).reshape(-1)
             pk = np.abs(np.take(v, __import__('eqsig').fns.peaks_and_crossings.get_switched_peak_array_indices(v)))
             n_tot = float(np.sum(0.5 / (a_ref / pk[pk > 0]) ** (1 / b))) if np.any(pk > 0) else 0.0
-            if n_tot > 0:
-                amp = im.calc_cyc_amp_array_w_power_law(v, n_tot, b)[-1]
+            # the cycle series is a 'previous' step function whose last knot sits at len(values): its final sample counts every
+            # switched peak, including one on the final sample
+            ctx.oracle('C13.d final equivalent-cycle count == sum over the switched peaks of 0.5*(|peak|/a_ref)^(1/b)',
+                       abs(float(n0[-1]) - n_tot) <= 1e-9 * max(n_tot, 1e-300), inputs, detail={'series_last': float(n0[-1]), 'sum': n_tot})
+            if n0[-1] > 0:
+                amp = im.calc_cyc_amp_array_w_power_law(v, float(n0[-1]), b)[-1]
                 ctx.oracle('C13.d mutual inverse: amplitude(N = cycles(a_ref)) == a_ref', abs(amp - a_ref) <= 1e-8 * a_ref, inputs,
-                           detail={'amp': float(amp), 'a_ref': a_ref, 'n_tot': n_tot, 'n_series_last': float(n0[-1])})
+                           detail={'amp': float(amp), 'a_ref': a_ref, 'n_series_last': float(n0[-1])})
         alpha = rng.choice([0.5, 2.0, 3.0, 10.0])
         am2 = im.calc_cyc_amp_array_w_power_law(alpha * v, n_cyc, b).reshape(-1)
         ctx.oracle('C13.d amplitude scales linearly with the record', bool(np.allclose(am2, alpha * am, rtol=1e-9, atol=1e-12 * peak)), inputs,
